@@ -69,6 +69,8 @@ def build(v):
             return getattr(getattr(module_of(relpath), cname), v['name'])
         if '__opaque__' in v:
             return object()
+        if '__construct__' in v:
+            return Deferred(v)
         if '__obj__' in v:
             relpath, cname = v['__obj__'].split('::')
             cls = getattr(module_of(relpath), cname)
@@ -100,6 +102,24 @@ def build(v):
 
 class NotConstructible(Exception):
     pass
+
+
+class Deferred:
+    """an object the witness asks to be built by the REAL constructor (the constructor is outside the engine's reach);
+    keyword arguments given as contract expressions are evaluated natively over the other arguments"""
+    def __init__(self, v):
+        self.v = v
+
+    def construct(self, envp):
+        relpath, cname = self.v['__construct__'].split('::')
+        cls = getattr(module_of(relpath), cname)
+        kw = {}
+        for k, x in self.v['kwargs'].items():
+            if isinstance(x, dict) and '__expr__' in x:
+                kw[k] = eval(compile(ast.parse(x['__expr__'].strip(), mode='eval'), '<kwarg>', 'eval'), envp)
+            else:
+                kw[k] = build(x)
+        return cls(**kw)
 
 
 class StubTable(dict):
@@ -297,6 +317,12 @@ def main():
             args[name] = val
         elif name in ghost:
             ghost[name] = val
+    for name in list(args):
+        if isinstance(args[name], Deferred):
+            envp = spec_env()
+            envp.update(ghost)
+            envp.update({k: v for k, v in args.items() if not isinstance(v, Deferred)})
+            args[name] = args[name].construct(envp)
     old_args = copy.deepcopy({**args, **ghost})
     print('calling', d['target'], 'with', {k: repr(v)[:120] for k, v in args.items()})
 
